@@ -1,108 +1,13 @@
 package p2pke
 
-import (
-	"io"
-
-	"golang.org/x/crypto/blake2b"
-)
-
 // C03: a session is usable only after the peer proved its key for this handshake.
 // C06: the handshake never regresses, never panics, is idempotent and makes progress.
 // One inductive step of Session.Deliver from an arbitrary invariant-satisfying state with an
 // arbitrary packet; Noise, protobuf and asn1 leaves are engine-level models, the Verifier is a
 // recording stub that may answer anything.
 
-// vRefPreSig is the harness's own statement of what is signed: XOF(len(purpose) || purpose || msg).
-// (It must not call createPreSig: a defect there would then be on both sides of the comparison.)
-func vRefPreSig(purpose string, data []byte) (ret [64]byte) {
-	h, err := blake2b.NewXOF(64, nil)
-	if err != nil {
-		panic(err)
-	}
-	h.Write([]byte{uint8(len(purpose))})
-	h.Write([]byte(purpose))
-	h.Write(data)
-	io.ReadFull(h, ret[:])
-	return ret
-}
-
-func vFindVerify(key []byte, purpose string, data []byte) bool {
-	want := vRefPreSig(purpose, data)
-	found := false
-	for i := range vVerifyLog {
-		c := vVerifyLog[i]
-		if c.ok && vEqBytes(c.key, key) && vEqBytes(c.presig, want[:]) {
-			found = true
-		}
-	}
-	return found
-}
-
 // verif: replay=none unwind=130 cover=resp-hello-accepted,init-hello-accepted,init-done-accepted,resp-done-accepted,data-accepted,rejected bounds="Session.Deliver: one step from every (role, handshake index) with an arbitrary 32-bit counter and 0..2 body bytes; Noise payload 0..3 bytes, protobuf fields and parsed keys arbitrary, Verify answers arbitrary"
-func VH_C03_handshakeStep() bool {
-	s := vHsSession()
-	hs0 := s.hsIndex
-	n0 := s.nonce
-	hadKey := !s.remoteKey.IsZero()
-	var key0 []byte
-	if hadKey {
-		key0 = vCloneB(s.remoteKey.Key.Data)
-	}
-	cbBefore := vCloneB(s.hs.ChannelBinding())
-	nonce := vU32()
-	pkt := vPacket(nonce, vBytes(2))
-	isApp, _, err := s.Deliver(nil, pkt, vT(5))
-	hs1 := s.hsIndex
-	vAssert(hs1 >= hs0, "handshake-index-regressed")
-	vAssert(s.nonce >= n0, "send-counter-decreased-a-key-counter-pair-would-be-reused")
-	if err != nil {
-		vCover("rejected")
-		vAssert(hs1 == hs0, "state-advanced-on-error")
-		if hadKey {
-			vAssert(vEqBytes(s.remoteKey.Key.Data, key0), "remote-key-changed-on-error")
-		} else {
-			vAssert(s.remoteKey.IsZero(), "remote-key-set-on-error")
-		}
-		return true
-	}
-	if hadKey {
-		vAssert(vEqBytes(s.remoteKey.Key.Data, key0), "remote-key-changed-after-being-set")
-	}
-	switch {
-	case hs1 == hs0:
-		vAssert(!isApp || hs0 >= nonceInitDone, "data-accepted-before-authentication")
-	case !s.isInit && hs0 == 0 && hs1 == 1:
-		vCover("init-hello-accepted")
-		ts := s.initHelloTime.Marshal()
-		vAssert(!s.remoteKey.IsZero() && vFindVerify(s.remoteKey.Key.Data, purposeTimestamp, ts), "init-hello-accepted-without-valid-signature-under-reported-key")
-		vAssert(s.msgCache[1] != nil && s.cipherIn != nil && s.cipherOut != nil, "responder-state-incomplete")
-	case s.isInit && hs0 == 0 && hs1 == 2:
-		vCover("resp-hello-accepted")
-		vAssert(!s.remoteKey.IsZero() && vFindVerify(s.remoteKey.Key.Data, purposeChannelBinding, cbBefore), "resp-hello-accepted-without-signature-over-this-handshakes-transcript")
-		vAssert(s.msgCache[2] != nil && s.cipherIn != nil && s.cipherOut != nil, "initiator-state-incomplete")
-	case !s.isInit && hs0 == 1 && hs1 == 3:
-		vCover("init-done-accepted")
-		vAssert(vFindVerify(key0, purposeChannelBinding, cbBefore), "init-done-accepted-without-signature-over-this-handshakes-transcript")
-		vAssert(s.msgCache[3] != nil, "responder-state-incomplete")
-	case s.isInit && hs0 == 2 && hs1 == 4:
-		vCover("resp-done-accepted")
-		ok := false
-		for i := range vCipherLog {
-			c := vCipherLog[i]
-			if c.dec && c.ok && c.n == nonceRespDone {
-				ok = true
-			}
-		}
-		vAssert(ok, "resp-done-accepted-without-authenticated-decrypt")
-	case hs1 == 8 && isApp && hs0 >= nonceInitDone:
-		vCover("data-accepted")
-	default:
-		vAssert(false, "illegal-handshake-transition")
-	}
-	// whoever can send has a post-handshake counter (C02/C06)
-	vAssert(!s.canSend() || s.nonce >= noncePostHandshake, "sender-with-handshake-range-counter")
-	return true
-}
+func VH_C03_handshakeStep() bool { return vHandshakeStep() }
 
 // verif: replay=none cover=has-message,no-message bounds="Handshake(): from every (role, handshake index): two calls return equal bytes and change nothing; never panics"
 func VH_C06_handshakeIdempotent() bool {
